@@ -39,6 +39,34 @@ class BlackJAXSMC(SMCSampler):
         self.key = None
         self.rng = rng or np.random.default_rng()
 
+    def _checkpoint_extra_state(self) -> dict:
+        state = super()._checkpoint_extra_state()
+        if self.key is not None:
+            import jax
+
+            # The key is split at every mutation, so it is part of the
+            # sampler state a resumed run has to continue from.
+            typed = jax.dtypes.issubdtype(self.key.dtype, jax.dtypes.prng_key)
+            state["jax_key"] = {
+                "data": np.asarray(
+                    jax.random.key_data(self.key) if typed else self.key
+                ),
+                "impl": str(jax.random.key_impl(self.key)) if typed else None,
+            }
+        return state
+
+    def _restore_extra_state(self, state: dict) -> None:
+        super()._restore_extra_state(state)
+        saved = state.get("jax_key")
+        if saved is not None:
+            import jax
+
+            data = jax.numpy.asarray(saved["data"])
+            if saved.get("impl") is not None:
+                self.key = jax.random.wrap_key_data(data, impl=saved["impl"])
+            else:
+                self.key = data
+
     def log_prob(self, x, beta=None):
         """Log probability function compatible with BlackJAX."""
         # Convert to original xp format for computation
